@@ -42,6 +42,29 @@ Theorem C20_q8_length : forall am v q, q8 am v = Some q -> length q = length v.
 Proof. intros am v q H. unfold q8 in H. destruct (q8_trained am); inversion H. apply map_length. Qed.
 Print Assumptions C20_q8_length.
 
+(** the float16 clause, for EVERY float32 in the binary16 normal range (2^-14 <= |x| <= 65504):
+    quantise + reconstruct stays within half-precision rounding, |deq(q x) - x| <= 2^-11 |x| over the
+    reals, and the reconstruction IS the round-to-nearest-even binary16 value of x.  (Through Flocq: the
+    standard library's real-number axioms appear under Print Assumptions.) *)
+From Coq Require Import Reals.
+From Flocq Require Import Core.Core.
+From Comet Require Import Proofs.FloatBits Proofs.HalfP.
+Theorem C20_half_precision_roundtrip : forall x,
+  wfb 23 8 x ->
+  (bpow radix2 (-14) <= Rabs (RV (F32.of_bits x)) <= 65504)%R ->
+  RV (F32.of_bits (f16_to_f32 (f32_to_f16 x))) = round radix2 (SpecFloat.fexp 11 16) ZnearestE (RV (F32.of_bits x)) /\
+  (Rabs (RV (F32.of_bits (f16_to_f32 (f32_to_f16 x))) - RV (F32.of_bits x)) <= bpow radix2 (-11) * Rabs (RV (F32.of_bits x)))%R.
+Proof. exact half_roundtrip_error. Qed.
+Print Assumptions C20_half_precision_roundtrip.
+
+Theorem C20_half_precision_vectors : forall v,
+  List.Forall in_half_range v -> List.Forall2 within_half_rounding v (dq16 (q16 v)).
+Proof. exact half_vector_error. Qed.
+Print Assumptions C20_half_precision_vectors.
+
+Example C20_half_range_inhabited : in_half_range 1065353216 /\ in_half_range 947912704 /\ in_half_range 1199562752.
+Proof. exact half_range_inhabited. Qed.
+
 Example C20_example :
   (match kmeans [[F32.of_Z 0]; [F32.of_Z 1]; [F32.of_Z 10]; [F32.of_Z 11]] 2 L2 20 with
    | Some (c, m, conv) => c = [[F32.div (F32.of_Z 1) (F32.of_Z 2)]; [F32.div (F32.of_Z 21) (F32.of_Z 2)]] /\ m = [0; 0; 1; 1] /\ conv = true
